@@ -107,16 +107,30 @@ func (mod *Module) findIdentityBase(baseStr string) (*resolvedIdentity, []error)
 			break
 		}
 		keyName := fmt.Sprintf("%s:%s", m.FullName(), baseName)
-		base, ok = typeDict.identities.dict[keyName]
-		if !ok && mod.Kind() == "submodule" {
+		if mod.Kind() == "submodule" {
 			// The identities of a submodule are filed under the
 			// modules that include it, which need not be the
-			// latest revision of the module it belongs to.
+			// latest revision of the module it belongs to: look
+			// under those first, then under the others.
+			var including, others []*Module
 			for _, o := range mod.Modules.revisions(m.Name) {
+				in := false
+				for _, i := range o.Include {
+					in = in || i.Module == mod
+				}
+				if in {
+					including = append(including, o)
+				} else {
+					others = append(others, o)
+				}
+			}
+			for _, o := range append(including, others...) {
 				if base, ok = typeDict.identities.dict[fmt.Sprintf("%s:%s", o.FullName(), baseName)]; ok {
 					break
 				}
 			}
+		} else {
+			base, ok = typeDict.identities.dict[keyName]
 		}
 		if !ok {
 			errs = append(errs, fmt.Errorf("%s: can't resolve the local base %s as %s", source, baseStr, keyName))
